@@ -217,6 +217,16 @@ func (x *Exec) evalInstr(fr *Frame, st *State, in ssa.Value) (Val, bool) {
 
 	case *ssa.Range:
 		v := x.value(fr, st, in.X)
+		if mt, ok := in.X.Type().Underlying().(*types.Map); ok {
+			// ghost: the set of keys the iteration has produced so far, and
+			// the key set of the map when the iteration started
+			id := fmt.Sprintf("%p", in)
+			hk, hs, _, _ := x.mapComps(mt)
+			ks := x.te.SortOf(mt.Key())
+			st.ghost["vis:"+id] = constArray(ks, False)
+			st.ghost["vismap:"+id] = v.T
+			st.ghost["vishas0:"+id] = Select(x.heapGet(st, hk, hs), v.T)
+		}
 		return Val{T: v.T, Typ: in.X.Type(), Org: "range"}, true
 
 	case *ssa.Next:
@@ -982,6 +992,20 @@ func (x *Exec) nextInstr(fr *Frame, st *State, in *ssa.Next) Val {
 		}
 		k = x.freshVal(st, "next_k", mt.Key())
 		st.assume(Implies(okv.T, And(Not(Eq(it.T, IntLit(0))), Select(Select(has, it.T), k.T))))
+		if id := fmt.Sprintf("%p", in.Iter); !st.ghost["vis:"+id].IsZero() {
+			// every key is produced at most once; when the iteration ends,
+			// every key that was in the map throughout has been produced
+			vis := st.ghost["vis:"+id]
+			kt := x.termOf(st, &k)
+			st.assume(Implies(okv.T, Not(Select(vis, kt))))
+			ksort := x.te.SortOf(mt.Key())
+			done := Term{fmt.Sprintf("(forall ((k_v %s)) (=> (and (select %s k_v) (select %s k_v)) (select %s k_v)))", ksort, st.ghost["vishas0:"+id].S, Select(has, it.T).S, vis.S), "Bool"}
+			st.assume(Implies(Not(okv.T), done))
+			nv := x.d.Fresh("vis", vis.Sort)
+			st.assume(Eq(nv, Ite(okv.T, Store(vis, kt, True), vis)))
+			st.ghost["vis:"+id] = nv
+			x.funcsUsed["assume:a range over a map produces each key at most once and, when it runs to completion, every key that stayed in the map"] = true
+		}
 		v = Val{T: Select(Select(val, it.T), k.T), Typ: mt.Elem()}
 		x.loadFacts(st, v)
 	} else {
